@@ -47,7 +47,7 @@ import (
 
 const c18home = "zhome"
 
-var c18remoteIDs = []string{"zaaaa", "zbbbb", "zcccc"}
+var c18remoteIDs = []string{"zaaaa", "zbbbb", "zcccc", "zdddd"}
 
 type c18err struct {
 	code int
@@ -471,10 +471,18 @@ func c18fanoutAll(r *vrep.Report) {
 	thorough := vrep.Thorough()
 	var cfgs []c18cfg
 	// answer classes x arrival orders
-	for n := 1; n <= 3; n++ {
+	for n := 1; n <= 4; n++ {
 		b := 2
 		if n == 3 && !thorough {
 			b = 0
+		}
+		if n == 4 {
+			// the statement's upper bound of remotes: every answer assignment x every arrival order
+			// without preemption (thorough: one preemption)
+			b = 0
+			if thorough {
+				b = 1
+			}
 		}
 		cfgs = append(cfgs, c18cfg{Remotes: n, Menu: "classes", Req: "match", Local: "404", Bound: b})
 	}
